@@ -388,9 +388,12 @@ def get_hostnames_case(nblocks, maxpat):
 def cases(tier):
     n = validate_glob()
     q = tier == "quick"
-    cs = [first_value_case(2, 2, 2, k, 1 if q else 2) for k in KINDS] + [
+    # (thorough) host names of 2 characters for the Match kinds; for Host blocks with two 2-character patterns per line
+    # that is beyond the time budget (> 15 min for one case), so Host keeps 1-character names there and gets the
+    # 3-block variant below instead
+    cs = [first_value_case(2, 2, 2, k, 1 if (q or k == "host") else 2) for k in KINDS] + [
           first_value_case(1, 2, 2, "host", 2 if q else 3),
-          identityfile_case(2 if q else 3, 2, 2),
+          identityfile_case(2, 2, 2) if q else identityfile_case(3, 1, 1),
           tokens_case(2 if q else 3),
           get_hostnames_case(2 if q else 3, 2)]
     if not q:
